@@ -208,6 +208,66 @@ pub fn analyse(b: &Built) -> BTreeSet<Fault> {
     faults
 }
 
+/// the same graph reached step by step: every template is first registered as a stub without edges, then each is
+/// re-added with its real source in a permuted order. Whatever the instance holds after a successful add must be a
+/// graph the analysis accepts (no cycle closed by a re-add, no dangling edge), and must render finitely.
+pub fn check_incremental(g: &GraphSpec, order: u64, l: &mut Local) -> Check {
+    let b = build(g);
+    let stub = |n: &str| format!("[stub {n}]{{% block b %}}{{% endblock %}}");
+    let mut steps: Vec<usize> = (0..b.sources.len()).collect();
+    let mut m = Mix(order);
+    for i in (1..steps.len()).rev() {
+        steps.swap(i, (m.next() % (i as u64 + 1)) as usize);
+    }
+    let case = || json!({"kind": "incremental_graph", "templates": b.sources, "prefixes": b.prefixes, "order": steps});
+    let mut t = tera::Tera::new();
+    if t.set_fallback_prefixes(b.prefixes.clone()).is_err() {
+        return Ok(());
+    }
+    if let Err(e) = t.add_raw_templates(b.sources.iter().map(|(n, _)| (n.clone(), stub(n))).collect::<Vec<_>>()) {
+        return Err(Fail::new("C11/valid-graph-rejected", format!("stubs without edges were rejected: {}", first_line(&e.to_string())), case()));
+    }
+    // the graph the instance holds: edges of the templates re-added successfully so far
+    let mut cur = Built { sources: b.sources.clone(), prefixes: b.prefixes.clone(), extends: BTreeMap::new(), includes: BTreeMap::new() };
+    for &i in &steps {
+        let (name, src) = &b.sources[i];
+        let mut next = Built { sources: cur.sources.clone(), prefixes: cur.prefixes.clone(), extends: cur.extends.clone(), includes: cur.includes.clone() };
+        if let Some(e) = b.extends.get(name) {
+            next.extends.insert(name.clone(), e.clone());
+        }
+        if let Some(e) = b.includes.get(name) {
+            next.includes.insert(name.clone(), e.clone());
+        }
+        let faults = analyse(&next);
+        let r = match guard(|| t.add_raw_template(name, src).map_err(|e| e.to_string())) {
+            Ok(r) => r,
+            Err(p) => return Err(Fail::new("C11/panic", format!("re-adding {name} panicked: {p}"), case())),
+        };
+        l.eval();
+        match (r, faults.is_empty()) {
+            (Ok(()), false) => return Err(Fail::new("C11/faulty-graph-accepted", format!("re-adding {name} = {src:?} over stubs and earlier re-adds was accepted although the instance then holds {:?} (order {:?}, prefixes {:?})", faults, steps, b.prefixes), case())),
+            (Ok(()), true) => {
+                cur = next;
+                l.label("incremental:step-accepted");
+            }
+            (Err(_), false) => l.label("incremental:faulty-step-refused"),
+            (Err(m), true) => return Err(Fail::new("C11/valid-graph-rejected", format!("re-adding {name} = {src:?} was refused ({}) although the resulting graph has no dangling edge or cycle (order {:?}, prefixes {:?})", first_line(&m), steps, b.prefixes), case())),
+        }
+    }
+    // what the instance holds now is acyclic: every template renders finitely
+    for (n, _) in &b.sources {
+        if let Err(p) = guard(|| t.render(n, &tera::Context::new()).map_err(|e| e.to_string())) {
+            return Err(Fail::new("C11/panic", format!("render({n}) panicked: {p}"), case()));
+        }
+        l.eval();
+    }
+    l.label("incremental:graph");
+    if !analyse(&b).is_empty() {
+        l.nontrivial(hash_of(&(b.sources.clone(), steps.clone(), 7u8)));
+    }
+    Ok(())
+}
+
 fn depth_of(b: &Built) -> usize {
     // longest include/extends path (acyclic graphs only)
     fn go(n: &str, b: &Built, memo: &mut BTreeMap<String, usize>, guard: usize) -> usize {
@@ -315,6 +375,10 @@ pub fn worker(w: &WorkerArgs) -> i32 {
             w.trace_case(|| { let b = build(g); json!({"kind": "graph", "templates": b.sources, "prefixes": b.prefixes}) });
             l.label("shape:chain-or-ring");
             check_graph(g, l)
+        }),
+        "incremental_graphs" => run_family(&rep, &fam, quick(300_000), || (prop_oneof![2 => graph_strategy(6), 1 => chain_strategy()], any::<u64>()), |(g, order), l| {
+            w.trace_case(|| { let b = build(g); json!({"kind": "incremental_graph", "templates": b.sources, "prefixes": b.prefixes}) });
+            check_incremental(g, *order, l)
         }),
         "fixed" => {
             let cases: Vec<_> = fixed_cases().into_iter().enumerate().filter(|(i, _)| *i as u64 % w.nshards.max(1) == w.shard).map(|(_, c)| c).collect();
@@ -438,6 +502,9 @@ pub fn run(rep: &Report) {
         }
     };
     run_in_workers(rep, "fixed", 16, 300, on_abnormal("fixed"));
+    run_in_workers(rep, "incremental_graphs", 16, 120, on_abnormal("incremental_graphs"));
+    rep.floor("incremental:faulty-step-refused", 20_000);
+    rep.floor("incremental:step-accepted", 200_000);
     run_in_workers(rep, "random_graphs", 16, 120, on_abnormal("random_graphs"));
     run_in_workers(rep, "chains_and_cycles", 16, 120, on_abnormal("chains_and_cycles"));
     for (lab, min) in [("graph:accepted", 90_000), ("graph:rejected", 300_000), ("single-fault:MissingParent", 9_000), ("single-fault:MissingInclude", 9_000), ("single-fault:ExtendsCycle", 9_000), ("single-fault:IncludeCycle", 9_000), ("graph:several-faults", 30_000), ("graph:with-prefixes", 300_000), ("graph:exact-name-shadows-prefixed", 30_000), ("graph:depth>=4", 15_000), ("graph:depth>=16", 3_000), ("fixed-case", 18)] {
@@ -450,6 +517,29 @@ pub fn replay(_rep: &Report, case: &serde_json::Value) -> Option<Check> {
     let sources: Vec<(String, String)> = case.get("templates")?.as_array()?.iter().map(|p| Some((p.get(0)?.as_str()?.to_string(), p.get(1)?.as_str()?.to_string()))).collect::<Option<_>>()?;
     let prefixes: Vec<String> = case.get("prefixes").and_then(|x| x.as_array()).map(|a| a.iter().filter_map(|x| x.as_str().map(|s| s.to_string())).collect()).unwrap_or_default();
     match case.get("kind")?.as_str()? {
+        "incremental_graph" => {
+            // source-level replay: after every accepted re-add, a fresh instance given the current sources in one batch must accept them
+            let order: Vec<usize> = case.get("order").and_then(|x| x.as_array()).map(|a| a.iter().filter_map(|x| x.as_u64().map(|v| v as usize)).collect()).unwrap_or_else(|| (0..sources.len()).collect());
+            let stub = |n: &str| format!("[stub {n}]{{% block b %}}{{% endblock %}}");
+            let mut t = tera::Tera::new();
+            let _ = t.set_fallback_prefixes(prefixes.clone());
+            let mut cur: Vec<(String, String)> = sources.iter().map(|(n, _)| (n.clone(), stub(n))).collect();
+            if t.add_raw_templates(cur.clone()).is_err() {
+                return Some(Ok(()));
+            }
+            for i in order {
+                let Some((n, src)) = sources.get(i) else { continue };
+                if t.add_raw_template(n, src).is_ok() {
+                    cur[i].1 = src.clone();
+                    let mut fresh = tera::Tera::new();
+                    let _ = fresh.set_fallback_prefixes(prefixes.clone());
+                    if let Err(e) = fresh.add_raw_templates(cur.clone()) {
+                        return Some(Err(Fail::new("C11/faulty-graph-accepted", format!("re-adding {n} was accepted, but a fresh instance rejects the resulting set: {}", first_line(&e.to_string())), case.clone())));
+                    }
+                }
+            }
+            Some(Ok(()))
+        }
         "fixed_graph" => Some(check_fixed(case.get("label")?.as_str()?, &sources, &prefixes, case.get("expect_ok")?.as_bool()?, &mut l)),
         "graph" => {
             // source-level replay: accepted iff no expected fault was recorded; accepted sets must render
